@@ -102,7 +102,7 @@ def deliver(kw, doc, chan, tmpdir):
         kw["raw_graph"] = to_tsv(doc)
         kw["input_format"] = "tsv_spo"
     elif chan == "turtle_iter":
-        kw["raw_graph"] = to_simple_turtle(doc, {"ex": "http://ex.org/"})
+        kw["raw_graph"] = to_simple_turtle(doc, {"ex": "http://ex.org/"}, layout=len(doc) % 4)
         kw["input_format"] = "turtle_iter"
     elif chan == "rdflib":
         kw["rdflib_graph"] = to_rdflib(doc)
